@@ -1,6 +1,6 @@
 """C18 — a computed model is a fixed point and computing never alters inputs."""
 from harness.runner import PropResult
-from harness import engine_oracles as eo
+from harness import engine_oracles as eo, syscases
 
 ASSUMPTIONS = [
     "read-sets in the table obligation are the dependencies the real code records (direct_ancestors_with_id) on a fixed "
@@ -22,13 +22,17 @@ def run(ctx, intensify=False):
         evals += o["evals"]
         hashes |= set(o["hashes"])
         res.samples += o["samples"]
+    tot = syscases.merge(ctx.pmap(syscases.run_shard, [(ctx.seed * 1000 + 300 + i, ctx.n(3, 30), [], GENKW, True) for i in range(ctx.nproc)]))
+    res.suites.append({"name": "K-calc", "cases": tot["cases"], "observations": tot["observations"],
+                       "disagreements": tot["disagreements"], "inconclusive": tot["inconclusive"],
+                       "distribution": syscases.distribution(tot["stats"])})
     res.suites.append({"name": "tables", "cases": 1, "observations": 1, "disagreements": [], "inconclusive": 0,
                        "distribution": {"note": "order_respects_reads / every_class_ranked are re-proved by decide over the "
                                                 "tables regenerated from /repo (see theorems)"}})
     res.evaluations = evals
     res.distinct_nontrivial = len(hashes)
     res.rule = ("random systems after random accepted histories; then explicit compute_calculated_attributes on a random "
-                "subset of objects in random order (and the system), explain(), system_to_json, aggregate views; calculated "
+                "subset of objects in random order (and the system) and single update_<attr>() calls, explain(), system_to_json, aggregate views; calculated "
                 "values must be unchanged (1e-12) and inputs physically unchanged")
     res.oracle_info = {"systems": cases, "actions": evals}
     return res
